@@ -714,8 +714,16 @@ def check_chooser(ctx, b, group="FRESH", tag="chooser"):
         # the same decision written as `if taken.contains(variant) { .. } else { fresh.push(variant); .. }` (or with the test negated)
         for n_ in walk(b["body"]):
             if n_.get("k") == "If" and "else" in n_:
-                cc = [x for x in walk(n_["cond"]) if x.get("k") == "MethodCall" and x["method"] == "contains"]
-                if len(cc) != 1 or local_id_of(cc[0]["recv"]) not in taken_ids:
+                def root_id(e_):
+                    e_ = strip(e_)
+                    while e_.get("k") == "MethodCall" and e_.get("method") in ("iter", "into_iter", "as_slice", "as_ref"):
+                        e_ = strip(e_["recv"])
+                    return local_id_of(e_)
+                # membership of the prefix in the taken names: `taken.contains(variant)` or `taken.iter().any(|t| t == variant)`
+                cc = [x for x in walk(n_["cond"]) if x.get("k") == "MethodCall" and x["method"] in ("contains", "any")]
+                if len(cc) != 1 or root_id(cc[0]["recv"]) not in taken_ids:
+                    continue
+                if cc[0]["method"] == "any" and not [y for y in walk(cc[0]["args"][0]) if y.get("k") == "Binary" and y.get("op") == "Eq"]:
                     continue
                 neg = strip(n_["cond"]).get("k") == "Unary" and strip(n_["cond"]).get("op") == "Not"
                 yes, no = (n_["else"], n_["then"]) if neg else (n_["then"], n_["else"])       # yes: the prefix is taken
